@@ -361,6 +361,12 @@ MUTANTS = [
     Mutant("counting jaccard: > 0 -> > 1", _CB, replace_expr("CountingBloomFilter", "jaccard_index", "self._bloom[i] > 0 and second._bloom[i] > 0", "self._bloom[i] > 1 and second._bloom[i] > 0"), rule="C13.jaccard"),
     Mutant("counting jaccard: union counts only self", _CB, replace_expr("CountingBloomFilter", "jaccard_index", "self._bloom[i] > 0 or second._bloom[i] > 0", "self._bloom[i] > 0"), rule="C13.jaccard"),
     Mutant("similarity without the probe-hash term", _B, replace_expr("BloomFilter", "_verify_bloom_similarity", "hash_match or same_bits or next_hash", "hash_match or same_bits"), rule="C13.similarity"),
+    Mutant("similarity compares where the probe key lands (hash % bits), not the hash values", _B,
+           replace_expr("BloomFilter", "_verify_bloom_similarity", "self.hashes('test') != second.hashes('test')",
+                        '[h % self.number_bits for h in self.hashes("test")] != [h % second.number_bits for h in second.hashes("test")]'), rule="C13.similarity"),
+    Mutant("similarity compares list() copies of the probe hashes (the same values)", _B,
+           replace_expr("BloomFilter", "_verify_bloom_similarity", "self.hashes('test') != second.hashes('test')",
+                        'list(self.hashes("test")) != list(second.hashes("test"))'), expect="silent"),
     Mutant("similarity without the bit count", _B, replace_expr("BloomFilter", "_verify_bloom_similarity", "hash_match or same_bits or next_hash", "hash_match or next_hash"), rule="C13.similarity"),
     Mutant("jaccard denominator is self's popcount", _B, replace_expr("BloomFilter", "jaccard_index", "bin(t_union)", "bin(el1)"), rule="C13.jaccard"),
     Mutant("jaccard range(1, bloom_length)", _B, replace_expr("BloomFilter", "jaccard_index", "range(0, self.bloom_length)", "range(1, self.bloom_length)"), rule="C13.jaccard"),
